@@ -6,9 +6,11 @@ compared outputs: [irq, dat_r, clear vector, pending vector, status vector].
 
   EvInst      bare EventManager with sources of any kind mix (modes A and B)
   SharedInst  several EventManagers + SharedIRQ, one bank each
-  ClientInst  Timer / UART / GPIOIn with their real trigger logic (mode B; the triggers fed to the model are sampled
+  ClientInst  Timer / UART with their real trigger logic (mode B; the triggers fed to the model are sampled
               from the real `source.trigger` signals, everything else — pending, clear, irq, read values — is the
               model's own prediction)
+  GpioInst    GPIOIn / GPIOTristate with_irq against the Lean `gpioIrq` model, which computes the triggers itself from
+              the synchronised pads and the mode/edge registers (the real trigger vector is a compared output)
   LostEventMonitor   property oracle on the real signals and the bus letters (independent of the Lean model)
 """
 import itertools
